@@ -90,12 +90,14 @@ def canon(o):
     """tuples/bytes -> lists, bool -> int, None -> []"""
     if isinstance(o, bool):
         return 1 if o else 0
-    if isinstance(o, int):
+    if isinstance(o, (int, str, float)):
         return o
     if o is None:
         return []
     if isinstance(o, (bytes, bytearray)):
         return list(o)
+    if isinstance(o, dict):
+        return {k: (v if k in ("events", "sends", "errors", "channels") else canon(v)) for k, v in o.items()}
     return [canon(x) for x in o]
 
 
